@@ -14,18 +14,17 @@ include!("gen/dispatch.rs");
 #[global_allocator]
 static GLOBAL: alloc::Counting = alloc::Counting;
 
-// `<hex>` or `-` (empty), optionally followed by `~<count>:<bb>`: `count` more copies of the byte `bb`
+// segments separated by `~`: `<hex>` (or `-`, empty) and `<count>:<bb>` (`count` copies of the byte `bb`)
 fn unhex(s: &str) -> Vec<u8> {
-    let (h, rl) = match s.split_once('~') {
-        Some((h, r)) => (h, Some(r)),
-        None => (s, None),
-    };
-    let mut out: Vec<u8> = if h == "-" { vec![] } else { (0..h.len() / 2).map(|i| u8::from_str_radix(&h[2 * i..2 * i + 2], 16).unwrap()).collect() };
-    if let Some(r) = rl {
-        let (n, b) = r.split_once(':').unwrap();
-        let n: usize = n.parse().unwrap();
-        let b = u8::from_str_radix(b, 16).unwrap();
-        out.extend(std::iter::repeat(b).take(n));
+    let mut out: Vec<u8> = Vec::new();
+    for seg in s.split('~') {
+        if let Some((n, b)) = seg.split_once(':') {
+            let n: usize = n.parse().unwrap();
+            let b = u8::from_str_radix(b, 16).unwrap();
+            out.extend(std::iter::repeat(b).take(n));
+        } else if seg != "-" {
+            out.extend((0..seg.len() / 2).map(|i| u8::from_str_radix(&seg[2 * i..2 * i + 2], 16).unwrap()));
+        }
     }
     out
 }
